@@ -547,7 +547,7 @@ func cmdCheck(args []string) int {
 		"obligations":              total,
 		"discharged":               discharged,
 		"checker_cmd":              fmt.Sprintf("bin/rvc check %s --tier %s  (VCs generated from %s on this run; solvers z3-new, z3, cvc5)", prop, *tier, *repo),
-		"trusted_base":             ps.Trusted,
+		"trusted_base":             trustedBase(ps.Trusted, trustedContracts),
 		"functions_under_contract": funcsUnder,
 		"functions":                funcList(ps),
 		"bounded":                  map[string]interface{}{"checked": bTotal, "passed": bDischarged, "K": opts.Unroll, "loops": unrolled, "note": "obligations that depend on a loop unrolled K times under an unwinding assumption; never counted in obligations/discharged"},
@@ -739,4 +739,17 @@ func runBoundedTest(repo string, bt BoundedTest) (out string, cases int, input s
 	}
 	ok = err == nil && strings.Contains(out, "\nok") && cases > 0
 	return
+}
+
+func trustedBase(extra, trustedContracts []string) []string {
+	out := []string{
+		"rvc (this verification-condition generator) and its model of the supported Go subset",
+		"go/packages + go/types (typed AST of /repo's current working tree)",
+		"SMT solvers z3 5.1.0, z3 4.8.12, cvc5 1.0.3 (an unsat of any one is accepted)",
+		"definitional facts of the bit library (tz, lz, wcnt, wordeq) and the standard-library models listed under assumptions",
+	}
+	for _, t := range trustedContracts {
+		out = append(out, "assumed contract: "+t)
+	}
+	return append(out, extra...)
 }
